@@ -109,7 +109,7 @@ class Evidence:
             self.samples.append(obj)
 
     def write(self) -> Path:
-        out = VERIF / "evidence" / f"{self.prop}.json"
+        out = Path(os.environ.get("VERIF_EVIDENCE_DIR") or (VERIF / "evidence")) / f"{self.prop}.json"  # the override is used only by the seeded-change self-test
         out.parent.mkdir(exist_ok=True)
         cov = {
             "evaluations": self.evaluations,
